@@ -331,6 +331,27 @@ Qed.
 Lemma sortedZ_tail_gt x r y : sortedZ (x :: r) -> In y r -> x < y.
 Proof. simpl. intros [H _] Hy. rewrite Forall_forall in H. auto. Qed.
 
+(* the caller's not_indexed entry (id -1) is dropped before the reconciliation *)
+Lemma strip_ni_filter pl : NoDup (ids pl) -> strip_ni pl = filter (fun kv => negb (fst kv =? -1)) pl.
+Proof.
+  intros Hn. unfold strip_ni. destruct (memZ (-1) (ids pl)) eqn:E.
+  - apply dict_remove_filter; auto.
+  - apply memZ_false in E. symmetry. apply filter_all_id. intros [i p] Hin. simpl.
+    apply negb_true_iff, Z.eqb_neq. intros Hi. subst. apply E. apply (in_map fst) in Hin. auto.
+Qed.
+
+Lemma strip_ni_sorted pl : sortedk pl -> sortedk (strip_ni pl).
+Proof. intros H. rewrite strip_ni_filter by (apply sortedk_NoDup; auto). apply sortedk_filter; auto. Qed.
+
+Lemma strip_ni_In pl i p : sortedk pl -> (In (i, p) (strip_ni pl) <-> In (i, p) pl /\ i <> -1).
+Proof.
+  intros H. rewrite strip_ni_filter by (apply sortedk_NoDup; auto). rewrite filter_In. simpl.
+  rewrite negb_true_iff, Z.eqb_neq. tauto.
+Qed.
+
+Lemma strip_ni_none pl : ~ In (-1) (ids pl) -> strip_ni pl = pl.
+Proof. intros H. unfold strip_ni. apply memZ_false in H. rewrite H. auto. Qed.
+
 (* ids after construction = exactly the ids present in the data *)
 Lemma init_phases_ids pid pl p :
   (forall pl0, pl = Some pl0 -> sortedk pl0) ->
@@ -342,10 +363,10 @@ Proof.
   intros H. inversion H; subst; clear H.
   set (u := if u0 =? -1 then ur else u0 :: ur).
   assert (Hsu : sortedZ u) by (unfold u; destruct (u0 =? -1); [apply Hu|auto]).
-  set (q := match pl with None => pl_default u | Some pl0 => reconcile pl0 u end).
+  set (q := match pl with None => pl_default u | Some pl0 => reconcile (strip_ni pl0) u end).
   assert (Hq : ids q = u).
   { unfold q. destruct pl as [pl0|].
-    - apply reconcile_ids; auto.
+    - apply reconcile_ids; auto. apply strip_ni_sorted; auto.
     - rewrite pl_default_eq by auto. unfold ids. rewrite map_map. simpl. apply map_id. }
   assert (Hsq : sortedk q) by (apply sortedk_ids; rewrite Hq; auto).
   unfold u in *. destruct (u0 =? -1) eqn:E0.
@@ -389,26 +410,50 @@ Proof.
   - intros i Hi. apply add_not_indexed_ids in Hi. destruct Hi; [lia|auto].
 Qed.
 
-Lemma maybe_add_ni_PInv z pl : PInv pl -> PInv (maybe_add_ni z pl).
+Lemma maybe_add_ni_PInv zs pl : PInv pl -> PInv (maybe_add_ni zs pl).
 Proof.
-  intros H. unfold maybe_add_ni. destruct ((z =? -1) && negb (memS ni_name (names pl))); auto.
+  intros H. unfold maybe_add_ni. destruct (has_m1 zs && negb (memS ni_name (names pl))); auto.
   apply add_not_indexed_PInv; auto.
 Qed.
 
-Lemma maybe_add_ni_ids z pl x : In x (ids pl) -> In x (ids (maybe_add_ni z pl)).
+Lemma maybe_add_ni_ids zs pl x : In x (ids pl) -> In x (ids (maybe_add_ni zs pl)).
 Proof.
-  intros H. unfold maybe_add_ni. destruct ((z =? -1) && negb (memS ni_name (names pl))); auto.
+  intros H. unfold maybe_add_ni. destruct (has_m1 zs && negb (memS ni_name (names pl))); auto.
   apply add_not_indexed_ids; auto.
 Qed.
 
-Lemma maybe_add_ni_has z pl : PInv pl -> z = -1 \/ In z (ids pl) -> In z (ids (maybe_add_ni z pl)).
+Lemma has_m1_In zs : has_m1 zs = true <-> In (-1) zs.
 Proof.
-  intros [Hs [Hn Hl]] [E|E]; [|apply maybe_add_ni_ids; auto].
-  subst z. unfold maybe_add_ni. simpl.
+  unfold has_m1. rewrite existsb_exists. split.
+  - intros [z [H E]]. apply Z.eqb_eq in E. subst. auto.
+  - intros H. exists (-1). auto.
+Qed.
+
+(* every assigned id that is -1 or listed is listed afterwards *)
+Lemma maybe_add_ni_has zs z pl : PInv pl -> In z zs -> z = -1 \/ In z (ids pl) ->
+  In z (ids (maybe_add_ni zs pl)).
+Proof.
+  intros [Hs [Hn Hl]] Hz [E|E]; [|apply maybe_add_ni_ids; auto].
+  subst z. unfold maybe_add_ni. apply has_m1_In in Hz. rewrite Hz. simpl.
   destruct (memS ni_name (names pl)) eqn:M; simpl.
   - apply memS_In, names_In in M. destruct M as [i [p [H1 H2]]].
     apply (Hn _ _ H1) in H2. subst. eapply In_ids; eauto.
   - apply add_not_indexed_ids; auto.
+Qed.
+
+(* the phase list after an assignment: not_indexed is listed iff it was, or -1 was assigned *)
+Lemma maybe_add_ni_spec zs pl : PInv pl ->
+  maybe_add_ni zs pl = if has_m1 zs && negb (memZ (-1) (ids pl)) then add_not_indexed pl else pl.
+Proof.
+  intros [Hs [Hn Hl]]. unfold maybe_add_ni.
+  replace (memS ni_name (names pl)) with (memZ (-1) (ids pl)); auto.
+  destruct (memS ni_name (names pl)) eqn:M.
+  - apply memS_In, names_In in M. destruct M as [i [p [H1 H2]]].
+    apply (Hn _ _ H1) in H2. subst. apply memZ_In. eapply In_ids; eauto.
+  - apply memZ_false. intros Hin. unfold ids in Hin. apply in_map_iff in Hin.
+    destruct Hin as [[i p] [E Hin]]. simpl in E. subst i.
+    assert (In ni_name (names pl)) by (apply names_In; exists (-1), p; split; auto; apply (Hn _ _ Hin); auto).
+    apply memS_In in H. congruence.
 Qed.
 
 Lemma add_one_PInv pl p : PInv pl -> pname p <> ni_name -> PInv (pl ++ [(new_id pl, p)]).
@@ -452,8 +497,7 @@ Definition op_ok (s : mstate) (o : op) : Prop :=
   let st := m_store s in
   match o with
   | OSetPid _ (PScalar z) => z = -1 \/ In z (ids (s_phases st))
-  | OSetPid _ (PArr [z]) => z = -1 \/ In z (ids (s_phases st))
-  | OSetPid _ (PArr zs) => forall z, In z zs -> In z (ids (s_phases st))
+  | OSetPid _ (PArr zs) => forall z, In z zs -> z = -1 \/ In z (ids (s_phases st))
   | OPhAdd ps => forall p, In p ps -> pname p <> ni_name
   | OPhDel (DelInt i) => ~ In i (s_pid st)
   | OPhDel (DelStr n) => forall i, first_id_with_name n (s_phases st) = Some i -> ~ In i (s_pid st)
@@ -461,30 +505,40 @@ Definition op_ok (s : mstate) (o : op) : Prop :=
   end.
 
 Lemma set_pid_scalar_Inv st v z : Inv st -> z = -1 \/ In z (ids (s_phases st)) ->
-  Inv (mkStore (fill v z (s_pid st)) (maybe_add_ni z (s_phases st)) (s_props st)).
+  Inv (mkStore (fill v z (s_pid st)) (maybe_add_ni [z] (s_phases st)) (s_props st)).
 Proof.
   intros [HP He] Hz. split; simpl.
   - apply maybe_add_ni_PInv; auto.
   - intros x Hx. apply fill_In in Hx. destruct Hx as [Hx|Hx].
-    + subst. apply maybe_add_ni_has; auto.
+    + subst. apply maybe_add_ni_has; simpl; auto.
     + apply maybe_add_ni_ids; auto.
 Qed.
 
+Lemma set_pid_scatter_Inv st v zs : Inv st -> (forall z, In z zs -> z = -1 \/ In z (ids (s_phases st))) ->
+  Inv (mkStore (scatter v zs (s_pid st)) (maybe_add_ni zs (s_phases st)) (s_props st)).
+Proof.
+  intros [HP He] Hz. split; simpl.
+  - apply maybe_add_ni_PInv; auto.
+  - intros x Hx. apply scatter_In in Hx. destruct Hx as [Hx|Hx].
+    + apply maybe_add_ni_has; auto.
+    + apply maybe_add_ni_ids; auto.
+Qed.
+
+(* scalar and array assignment alike: every assigned id is -1 or listed *)
 Lemma set_pid_Inv st v val : Inv st ->
   match val with
   | PScalar z => z = -1 \/ In z (ids (s_phases st))
-  | PArr [z] => z = -1 \/ In z (ids (s_phases st))
-  | PArr zs => forall z, In z zs -> In z (ids (s_phases st))
+  | PArr zs => forall z, In z zs -> z = -1 \/ In z (ids (s_phases st))
   end -> Inv (fst (set_pid st v val)).
 Proof.
   intros HI Hv. destruct val as [z|zs].
   - simpl. apply set_pid_scalar_Inv; auto.
   - destruct zs as [|z [|z' r]].
-    + simpl. auto.
-    + simpl. apply set_pid_scalar_Inv; auto.
+    + unfold set_pid. destruct (Nat.eqb (List.length (@nil Z)) (count v)); simpl; auto.
+      apply set_pid_scatter_Inv; auto.
+    + simpl. apply set_pid_scalar_Inv; auto. apply Hv. simpl. auto.
     + unfold set_pid. destruct (Nat.eqb (List.length (z :: z' :: r)) (count v)); simpl; auto.
-      destruct HI as [HP He]. split; simpl; auto.
-      intros x Hx. apply scatter_In in Hx. destruct Hx; auto.
+      apply set_pid_scatter_Inv; auto.
 Qed.
 
 Lemma set_prop_same st v k val :
@@ -503,7 +557,7 @@ Proof.
   - destruct (nth_error (m_views s) i) as [v|]; auto.
     pose proof (set_pid_Inv (m_store s) v val HI) as G.
     destruct (set_pid (m_store s) v val) as [st' e]. simpl in *. apply G.
-    destruct val as [z|[|z [|z' r]]]; auto.
+    destruct val as [z|zs]; auto.
   - destruct (nth_error (m_views s) i) as [v|]; auto.
     pose proof (set_prop_same (m_store s) v k val) as [G1 G2].
     destruct (set_prop (m_store s) v k val) as [st' e]. simpl in *.
@@ -543,7 +597,7 @@ Lemma init_phases_entries pid pl p :
   init_phases pid pl = Ok p ->
   forall i ph, In (i, ph) p ->
     (i = -1 /\ ph = ni_phase) \/
-    (i <> -1 /\ (ph = default_phase \/ exists pl0, pl = Some pl0 /\ In ph (map snd pl0))).
+    (i <> -1 /\ (ph = default_phase \/ exists pl0, pl = Some pl0 /\ In ph (map snd (strip_ni pl0)))).
 Proof.
   intros Hpl Hlow. unfold init_phases.
   pose proof (uniq_sorted pid) as Hu.
@@ -557,18 +611,18 @@ Proof.
     - apply Z.eqb_eq in E0. subst. eapply sortedZ_tail_gt; eauto.
     - apply Z.eqb_neq in E0. destruct Hx as [Hx|Hx]; [subst; lia|].
       pose proof (sortedZ_tail_gt _ _ _ Hu Hx). lia. }
-  set (q := match pl with None => pl_default u | Some pl0 => reconcile pl0 u end).
+  set (q := match pl with None => pl_default u | Some pl0 => reconcile (strip_ni pl0) u end).
   assert (Hq : ids q = u).
   { unfold q. destruct pl as [pl0|].
-    - apply reconcile_ids; auto.
+    - apply reconcile_ids; auto. apply strip_ni_sorted; auto.
     - rewrite pl_default_eq by auto. unfold ids. rewrite map_map. simpl. apply map_id. }
   assert (Hsq : sortedk q) by (apply sortedk_ids; rewrite Hq; auto).
   assert (Hv : forall i ph, In (i, ph) q ->
-          i <> -1 /\ (ph = default_phase \/ exists pl0, pl = Some pl0 /\ In ph (map snd pl0))).
+          i <> -1 /\ (ph = default_phase \/ exists pl0, pl = Some pl0 /\ In ph (map snd (strip_ni pl0)))).
   { intros i ph Hin. split.
     - apply In_ids in Hin. rewrite Hq in Hin. specialize (Hgt _ Hin). lia.
     - unfold q in Hin. destruct pl as [pl0|].
-      + destruct (reconcile_values pl0 u i ph (Hpl _ eq_refl) Hsu Hin); eauto.
+      + destruct (reconcile_values (strip_ni pl0) u i ph (strip_ni_sorted _ (Hpl _ eq_refl)) Hsu Hin); eauto.
       + rewrite pl_default_eq in Hin by auto. apply in_map_iff in Hin.
         destruct Hin as [j [Ej _]]. inversion Ej; auto. }
   fold u. fold q. intros i ph Hin.
@@ -578,10 +632,15 @@ Proof.
   - rewrite Hq. apply Forall_forall. auto.
 Qed.
 
-(* After construction from ANY phase-id array (ids >= -1) and ANY sorted phase
-   list without a phase named "not_indexed", the invariant holds. *)
+(* the caller's list is well formed: sorted, and a phase named "not_indexed" (if any) has id -1 *)
+Definition caller_ok (pl0 : plist) : Prop :=
+  sortedk pl0 /\ (forall i p, In (i, p) pl0 -> pname p = ni_name -> i = -1).
+
+(* After construction from ANY phase-id array (ids >= -1) and ANY well-formed phase
+   list -- it may hold "not_indexed" at id -1, e.g. another map's .phases -- the
+   invariant holds. *)
 Theorem init_Inv pid pl props st :
-  (forall pl0, pl = Some pl0 -> sortedk pl0 /\ ~ In ni_name (names pl0)) ->
+  (forall pl0, pl = Some pl0 -> caller_ok pl0) ->
   (forall x, In x pid -> -1 <= x) ->
   init pid pl props = Ok st -> Inv st.
 Proof.
@@ -595,8 +654,9 @@ Proof.
     + subst. split; intros; reflexivity.
     + split; [|tauto]. intros Hn. exfalso. destruct E2 as [E2|[pl0 [E2 E3]]].
       * subst. cbv in Hn. discriminate.
-      * apply (proj2 (Hpl _ E2)). apply in_map_iff in E3. destruct E3 as [[j q] [E3 E4]].
-        simpl in E3. subst q. apply names_In. exists j, ph. split; auto.
+      * apply in_map_iff in E3. destruct E3 as [[j q] [E3 E4]]. simpl in E3. subst q.
+        destruct (Hpl _ E2) as [Hs0 Hni]. apply strip_ni_In in E4; auto.
+        destruct E4 as [E4 E5]. apply E5. eapply Hni; eauto.
   - intros i Hi. rewrite Hids in Hi. apply (proj1 (uniq_In _ _)) in Hi. apply Hlow; auto.
   - intros x Hx. rewrite Hids. apply uniq_In; auto.
 Qed.
@@ -661,30 +721,10 @@ Proof.
     + intros [H|[]]. inversion H; subst. split; [apply dict_get_In; auto|auto].
 Qed.
 
-Lemma first_id_exists s (pl : plist) : In s (names pl) -> exists j, first_id_with_name s pl = Some j.
-Proof.
-  intros H. destruct (first_id_with_name s pl) eqn:E; eauto.
-  apply first_id_with_name_None in E. tauto.
-Qed.
-
-Lemma first_id_unique (pl : plist) i p :
-  (forall j q, In (j, q) pl -> pname q = pname p -> j = i) -> In (i, p) pl ->
-  first_id_with_name (pname p) pl = Some i.
-Proof.
-  induction pl as [|[k q] r IH]; simpl; intros Hu Hin; [tauto|].
-  destruct (String.eqb (pname p) (pname q)) eqn:E.
-  - apply String.eqb_eq in E. f_equal. apply (Hu k q); auto.
-  - destruct Hin as [Hin|Hin].
-    + inversion Hin; subst. rewrite String.eqb_refl in E. discriminate.
-    + apply IH; auto. intros j q' Hj. apply Hu. auto.
-Qed.
-
-(* one phase in the selection: the phase is the right one; its id label is the
-   FIRST id carrying that name (id_from_name) *)
+(* one phase in the selection: that phase, under the id present in the data *)
 Theorem phases_in_data_single st v i p : Inv st -> present st v = [i] ->
   dict_get i (s_phases st) = Some p ->
-  exists j, first_id_with_name (pname p) (s_phases st) = Some j /\
-            phases_in_data st v = Ok [(j, p)] /\ In j (ids (s_phases st)).
+  phases_in_data st v = Ok [(i, p)].
 Proof.
   intros [[Hs [Hn Hl]] He] Hp Hg. unfold phases_in_data. fold (present st v). rewrite Hp.
   assert (Hi : In i (ids (s_phases st))).
@@ -692,23 +732,25 @@ Proof.
   simpl filter. replace (memZ i (ids (s_phases st))) with true by (symmetry; apply memZ_In; auto).
   cbn [index].
   pose proof (by_ids_spec (s_phases st) [i] Hs) as R.
-  rewrite (filter_single _ i p Hs Hg) in R. simpl in R. rewrite R.
-  2:{ intros k [Hk|[]]. subst; auto. }
-  destruct (first_id_exists (pname p) (s_phases st)) as [j Hj].
-  { apply names_In. exists i, p. split; auto. apply dict_get_In; auto. }
-  exists j. unfold id_from_name. rewrite Hj. repeat split; auto.
-  eapply first_id_with_name_In; eauto.
+  rewrite (filter_single _ i p Hs Hg) in R. simpl in R. rewrite R; auto.
+  intros k [Hk|[]]. subst; auto.
 Qed.
 
-(* ... and the label is right when no smaller id carries the same name *)
-Corollary phases_in_data_single_exact st v i p : Inv st -> present st v = [i] ->
-  dict_get i (s_phases st) = Some p ->
-  (forall j q, In (j, q) (s_phases st) -> pname q = pname p -> j = i) ->
-  phases_in_data st v = Ok [(i, p)].
+(* whatever the selection (non-empty): exactly the ids present, each with its listed phase *)
+Theorem phases_in_data_ids st v : Inv st -> present st v <> [] ->
+  exists sel, phases_in_data st v = Ok sel /\ ids sel = present st v /\
+              (forall x, In x sel -> In x (s_phases st)) /\ sortedk sel.
 Proof.
-  intros HI Hp Hg Hu. destruct (phases_in_data_single st v i p HI Hp Hg) as [j [H1 [H2 _]]].
-  rewrite (first_id_unique _ i p Hu) in H1 by (apply dict_get_In; auto).
-  inversion H1; subst. auto.
+  intros HI Hne. destruct (present st v) as [|i [|j r]] eqn:E; [congruence| |].
+  - assert (Hi : In i (ids (s_phases st))).
+    { destruct HI as [_ He]. apply He. apply (select_by_In v). apply uniq_In.
+      change (In i (present st v)). rewrite E. left; auto. }
+    destruct (dict_get_Some_ids _ _ Hi) as [p Hg].
+    exists [(i, p)]. rewrite (phases_in_data_single st v i p HI E Hg).
+    split; [auto|split; [auto|split]].
+    + intros x [Hx|[]]. subst. apply dict_get_In; auto.
+    + simpl. split; [constructor|auto].
+  - rewrite <- E. apply phases_in_data_many; auto. rewrite E. simpl. lia.
 Qed.
 
 (* ====================================================== orientations *)
@@ -730,10 +772,10 @@ Theorem orientations_single st v i p : Inv st -> present st v = [i] ->
   dict_get i (s_phases st) = Some p ->
   orientations st v = match ppg p with Some g => Ok g | None => Err TypeError end.
 Proof.
-  intros HI Hp Hg. destruct (phases_in_data_single st v i p HI Hp Hg) as [j [_ [H2 H3]]].
+  intros HI Hp Hg. pose proof (phases_in_data_single st v i p HI Hp Hg) as H2.
   unfold orientations. rewrite H2. simpl List.length. simpl Nat.eqb. cbn [index].
   rewrite slice_all_single; auto.
-  destruct HI as [[_ [_ Hl]] _]. auto.
+  destruct HI as [[_ [_ Hl]] _]. apply Hl. apply dict_get_In, In_ids in Hg. auto.
 Qed.
 
 Theorem orientations_many st v : Inv st -> (2 <= List.length (present st v))%nat ->
@@ -756,25 +798,31 @@ Theorem set_pid_scalar_frame st v z : List.length v = List.length (s_pid st) ->
   s_props st' = s_props st.
 Proof. intros H. simpl. destruct (select_by_fill v z (s_pid st) H). auto. Qed.
 
+(* array assignment of the right length: exactly the selected points take the values,
+   nothing is raised, and not_indexed is added when -1 was assigned and it was missing *)
 Theorem set_pid_array_frame st v zs : List.length v = List.length (s_pid st) ->
-  List.length zs = count v -> (2 <= List.length zs)%nat ->
+  List.length zs = count v ->
   let st' := fst (set_pid st v (PArr zs)) in
   select_by v (s_pid st') = zs /\
   select_by (map negb v) (s_pid st') = select_by (map negb v) (s_pid st) /\
-  s_props st' = s_props st /\ s_phases st' = s_phases st /\
-  snd (set_pid st v (PArr zs)) = Some ValueError.
+  s_props st' = s_props st /\ s_phases st' = maybe_add_ni zs (s_phases st) /\
+  snd (set_pid st v (PArr zs)) = None.
 Proof.
-  intros H Hc Hl. destruct zs as [|z [|z' r]]; simpl in Hl; try lia.
-  unfold set_pid. rewrite Hc, Nat.eqb_refl. simpl.
-  destruct (select_by_scatter v (z :: z' :: r) (s_pid st) H Hc). auto.
+  intros H Hc. destruct zs as [|z [|z' r]].
+  - unfold set_pid. rewrite Hc, Nat.eqb_refl. simpl.
+    destruct (select_by_scatter v [] (s_pid st) H Hc). auto.
+  - simpl. destruct (select_by_fill v z (s_pid st) H) as [H1 H2]. rewrite H1, <- Hc. simpl. auto.
+  - unfold set_pid. rewrite Hc, Nat.eqb_refl. simpl.
+    destruct (select_by_scatter v (z :: z' :: r) (s_pid st) H Hc). auto.
 Qed.
 
-(* a wrong-length array is rejected and nothing changes *)
-Theorem set_pid_array_bad_length st v zs : (2 <= List.length zs)%nat ->
+(* a wrong-length array (other than a length-1 array, which is broadcast) is rejected
+   and nothing changes *)
+Theorem set_pid_array_bad_length st v zs : List.length zs <> 1%nat ->
   List.length zs <> count v -> set_pid st v (PArr zs) = (st, Some ValueError).
 Proof.
-  intros Hl Hc. destruct zs as [|z [|z' r]]; simpl in Hl; try lia.
-  unfold set_pid. apply Nat.eqb_neq in Hc. rewrite Hc. auto.
+  intros Hl Hc. destruct zs as [|z [|z' r]]; simpl in Hl; try lia;
+    unfold set_pid; apply Nat.eqb_neq in Hc; rewrite Hc; auto.
 Qed.
 
 Lemma prop_get_set_same k a d : prop_get k (prop_set k a d) = Some a.
@@ -800,59 +848,149 @@ Proof.
   rewrite <- (map_id l) at 2. apply map_ext. intros x. destruct d; auto.
 Qed.
 
-(* property assignment through a selection, value dtype = array dtype:
-   exactly the selected points change *)
-Theorem set_prop_scalar_frame st v k a z :
-  prop_get k (s_props st) = Some a -> List.length v = List.length (pvals a) ->
-  let st' := fst (set_prop st v k (VScalar (pdt a) z)) in
-  exists a', prop_get k (s_props st') = Some a' /\ pdt a' = pdt a /\
-    select_by v (pvals a') = repeat z (count v) /\
-    select_by (map negb v) (pvals a') = select_by (map negb v) (pvals a) /\
-    s_pid st' = s_pid st /\ s_phases st' = s_phases st /\
-    (forall k', k' <> k -> prop_get k' (s_props st') = prop_get k' (s_props st)).
-Proof.
-  intros Hg Hl. unfold set_prop. rewrite Hg, cast_same. simpl.
-  destruct (select_by_fill v z (pvals a) Hl) as [H1 H2].
-  eexists. split; [apply prop_get_set_same|]. simpl. repeat split; auto.
-  intros k' Hk. apply prop_get_set_other. auto.
-Qed.
-
-Theorem set_prop_array_frame st v k a zs :
-  prop_get k (s_props st) = Some a -> List.length v = List.length (pvals a) ->
-  List.length zs = count v -> (2 <= List.length zs)%nat ->
-  let st' := fst (set_prop st v k (VArr (pdt a) zs)) in
-  exists a', prop_get k (s_props st') = Some a' /\ pdt a' = pdt a /\
-    select_by v (pvals a') = zs /\
-    select_by (map negb v) (pvals a') = select_by (map negb v) (pvals a) /\
-    s_pid st' = s_pid st /\ s_phases st' = s_phases st /\
-    (forall k', k' <> k -> prop_get k' (s_props st') = prop_get k' (s_props st)).
-Proof.
-  intros Hg Hl Hc H2. unfold set_prop. rewrite Hg, cast_same.
-  destruct zs as [|z [|z' r]]; simpl in H2; try lia.
-  rewrite Hc, Nat.eqb_refl. simpl.
-  destruct (select_by_scatter v (z :: z' :: r) (pvals a) Hl Hc) as [G1 G2].
-  eexists. split; [apply prop_get_set_same|]. simpl. repeat split; auto.
-  intros k' Hk. apply prop_get_set_other. auto.
-Qed.
-
-(* int array, float value: outside the selection the same NUMBERS (x = 4x quarters) *)
 Lemma select_by_map {A B} (f : A -> B) (v : view) : forall l, select_by v (map f l) = map f (select_by v l).
 Proof.
   induction v as [|b v IH]; intros [|x l]; simpl; auto. destruct b; simpl; rewrite IH; auto.
 Qed.
 
-Theorem set_prop_int_to_float_frame st v k l z :
-  prop_get k (s_props st) = Some (mkArr DInt l) -> List.length v = List.length l ->
-  let st' := fst (set_prop st v k (VScalar DFlt z)) in
-  exists a', prop_get k (s_props st') = Some a' /\ pdt a' = DFlt /\
-    select_by v (pvals a') = repeat z (count v) /\
-    select_by (map negb v) (pvals a') = map (fun x => x * 4) (select_by (map negb v) l).
+(* the NUMBER held by a stored value: floats are stored as quarters, ints as units *)
+Definition quarters (d : dtype) (x : Z) : Z := match d with DInt => x * 4 | DFlt => x end.
+
+(* a cast that keeps every number: anything but float -> int *)
+Definition lossless (a b : dtype) : Prop := match a, b with DFlt, DInt => False | _, _ => True end.
+
+Lemma cast1_quarters a b x : lossless a b -> quarters b (cast1 a b x) = quarters a x.
+Proof. destruct a, b; simpl; intros H; auto; tauto. Qed.
+
+Lemma cast1_same d x : cast1 d d x = x.
+Proof. destruct d; auto. Qed.
+
+Lemma promote_same d : promote d d = d.
+Proof. destruct d; auto. Qed.
+
+Lemma promote_lossless_l a d : lossless a (promote a d).
+Proof. destruct a, d; simpl; auto. Qed.
+
+Lemma promote_lossless_r a d : lossless d (promote a d).
+Proof. destruct a, d; simpl; auto. Qed.
+
+Lemma lossless_refl d : lossless d d.
+Proof. destruct d; simpl; auto. Qed.
+
+(* the dtype of the property after an assignment *)
+Definition new_dtype (v : view) (old d : dtype) : dtype := if all_in v then d else promote old d.
+
+Lemma promote_same_new v d : new_dtype v d d = d.
+Proof. unfold new_dtype. rewrite promote_same. destruct (all_in v); auto. Qed.
+
+Lemma new_dtype_value v old d : lossless d (new_dtype v old d).
+Proof. unfold new_dtype. destruct (all_in v); [apply lossless_refl|apply promote_lossless_r]. Qed.
+
+Lemma all_in_unselected {A} (v : view) : all_in v = true -> forall l : list A, select_by (map negb v) l = [].
 Proof.
-  intros Hg Hl. unfold set_prop. rewrite Hg. simpl.
-  assert (Hl' : List.length v = List.length (map (cast1 DInt DFlt) l)) by (rewrite map_length; auto).
-  destruct (select_by_fill v z (map (cast1 DInt DFlt) l) Hl') as [H1 H2].
+  unfold all_in. induction v as [|b v IH]; intros H [|x l]; simpl in *; auto.
+  apply andb_true_iff in H. destruct H as [Hb H]. subst b. simpl. auto.
+Qed.
+
+Lemma new_dtype_old {A} v old d (l : list A) : select_by (map negb v) l <> [] -> lossless old (new_dtype v old d).
+Proof.
+  unfold new_dtype. destruct (all_in v) eqn:E.
+  - rewrite all_in_unselected by auto. congruence.
+  - intros _. apply promote_lossless_l.
+Qed.
+
+(* property assignment through a selection, ANY value dtype: exactly the selected points
+   take the (converted) values; every other point keeps its value, converted to a dtype
+   that holds it exactly; other keys, phase ids and phases are untouched *)
+Theorem set_prop_scalar_frame st v k a d z :
+  prop_get k (s_props st) = Some a -> List.length v = List.length (pvals a) ->
+  let st' := fst (set_prop st v k (VScalar d z)) in
+  exists a', prop_get k (s_props st') = Some a' /\ pdt a' = new_dtype v (pdt a) d /\
+    select_by v (pvals a') = repeat (cast1 d (pdt a') z) (count v) /\
+    select_by (map negb v) (pvals a') = map (cast1 (pdt a) (pdt a')) (select_by (map negb v) (pvals a)) /\
+    lossless d (pdt a') /\
+    (select_by (map negb v) (pvals a) <> [] -> lossless (pdt a) (pdt a')) /\
+    s_pid st' = s_pid st /\ s_phases st' = s_phases st /\
+    (forall k', k' <> k -> prop_get k' (s_props st') = prop_get k' (s_props st)).
+Proof.
+  intros Hg Hl. unfold set_prop. rewrite Hg. fold (new_dtype v (pdt a) d). simpl.
+  set (dt := new_dtype v (pdt a) d).
+  assert (Hl' : List.length v = List.length (map (cast1 (pdt a) dt) (pvals a))) by (rewrite map_length; auto).
+  destruct (select_by_fill v (cast1 d dt z) _ Hl') as [H1 H2].
   eexists. split; [apply prop_get_set_same|]. simpl. repeat split; auto.
-  rewrite H2, select_by_map. auto.
+  - rewrite H2. apply select_by_map.
+  - apply new_dtype_value.
+  - apply new_dtype_old.
+  - intros k' Hk. apply prop_get_set_other. auto.
+Qed.
+
+Theorem set_prop_array_frame st v k a d zs :
+  prop_get k (s_props st) = Some a -> List.length v = List.length (pvals a) ->
+  List.length zs = count v ->
+  let st' := fst (set_prop st v k (VArr d zs)) in
+  exists a', prop_get k (s_props st') = Some a' /\ pdt a' = new_dtype v (pdt a) d /\
+    select_by v (pvals a') = map (cast1 d (pdt a')) zs /\
+    select_by (map negb v) (pvals a') = map (cast1 (pdt a) (pdt a')) (select_by (map negb v) (pvals a)) /\
+    lossless d (pdt a') /\
+    (select_by (map negb v) (pvals a) <> [] -> lossless (pdt a) (pdt a')) /\
+    s_pid st' = s_pid st /\ s_phases st' = s_phases st /\
+    (forall k', k' <> k -> prop_get k' (s_props st') = prop_get k' (s_props st)).
+Proof.
+  intros Hg Hl Hc. unfold set_prop. rewrite Hg. fold (new_dtype v (pdt a) d).
+  set (dt := new_dtype v (pdt a) d).
+  assert (Hl' : List.length v = List.length (map (cast1 (pdt a) dt) (pvals a))) by (rewrite map_length; auto).
+  destruct zs as [|z [|z' r]].
+  - rewrite Hc, Nat.eqb_refl. simpl.
+    destruct (select_by_scatter v (@nil Z) _ Hl' Hc) as [G1 G2].
+    eexists. split; [apply prop_get_set_same|]. simpl. repeat split; auto.
+    + rewrite G2. apply select_by_map.
+    + apply new_dtype_value.
+    + apply new_dtype_old.
+    + intros k' Hk. apply prop_get_set_other. auto.
+  - simpl. destruct (select_by_fill v (cast1 d dt z) _ Hl') as [H1 H2].
+    eexists. split; [apply prop_get_set_same|]. simpl. repeat split; auto.
+    + rewrite H1, <- Hc. reflexivity.
+    + rewrite H2. apply select_by_map.
+    + apply new_dtype_value.
+    + apply new_dtype_old.
+    + intros k' Hk. apply prop_get_set_other. auto.
+  - rewrite Hc, Nat.eqb_refl.
+    assert (Hc' : List.length (map (cast1 d dt) (z :: z' :: r)) = count v) by (rewrite map_length; auto).
+    destruct (select_by_scatter v _ _ Hl' Hc') as [G1 G2].
+    eexists. split; [apply prop_get_set_same|]. unfold cast; cbn [fst s_props s_pid s_phases pdt pvals]. repeat split; auto.
+    + rewrite G2. apply select_by_map.
+    + apply new_dtype_value.
+    + apply new_dtype_old.
+    + intros k' Hk. apply prop_get_set_other. auto.
+Qed.
+
+(* in NUMBERS: no point outside the selection changes its number, whatever the dtypes *)
+Corollary set_prop_keeps_unselected_numbers st v k a val :
+  prop_get k (s_props st) = Some a -> List.length v = List.length (pvals a) ->
+  snd (set_prop st v k val) = None ->
+  exists a', prop_get k (s_props (fst (set_prop st v k val))) = Some a' /\
+    map (quarters (pdt a')) (select_by (map negb v) (pvals a'))
+    = map (quarters (pdt a)) (select_by (map negb v) (pvals a)).
+Proof.
+  intros Hg Hl He.
+  assert (K : forall a' : parr,
+     select_by (map negb v) (pvals a') = map (cast1 (pdt a) (pdt a')) (select_by (map negb v) (pvals a)) ->
+     (select_by (map negb v) (pvals a) <> [] -> lossless (pdt a) (pdt a')) ->
+     map (quarters (pdt a')) (select_by (map negb v) (pvals a'))
+     = map (quarters (pdt a)) (select_by (map negb v) (pvals a))).
+  { intros a' E L. rewrite E, map_map. destruct (select_by (map negb v) (pvals a)) as [|x l] eqn:S; auto.
+    apply map_ext. intros y. apply cast1_quarters. apply L. discriminate. }
+  destruct val as [d z|d zs].
+  - destruct (set_prop_scalar_frame st v k a d z Hg Hl) as [a' [H1 [_ [_ [H4 [_ [H6 _]]]]]]].
+    exists a'. split; auto.
+  - destruct (Nat.eq_dec (List.length zs) (count v)) as [Hc|Hc].
+    + destruct (set_prop_array_frame st v k a d zs Hg Hl Hc) as [a' [H1 [_ [_ [H4 [_ [H6 _]]]]]]].
+      exists a'. split; auto.
+    + destruct zs as [|z [|z' r]].
+      * exfalso. unfold set_prop in He. rewrite Hg in He. apply Nat.eqb_neq in Hc. rewrite Hc in He. discriminate.
+      * destruct (set_prop_scalar_frame st v k a d z Hg Hl) as [a' [H1 [_ [_ [H4 [_ [H6 _]]]]]]].
+        exists a'. split; auto.
+      * exfalso. unfold set_prop in He. rewrite Hg in He. apply Nat.eqb_neq in Hc. rewrite Hc in He. discriminate.
 Qed.
 
 (* ======================================================== selections *)
